@@ -61,6 +61,12 @@ func (e *Env) sub() *Env {
 }
 
 func (e *Env) vc() *VC       { return e.fr.vc }
+func (e *Env) pkgPath() string {
+	if e.pkg != nil {
+		return e.pkg.Path()
+	}
+	return ""
+}
 func (e *Env) l() *Layouter { return e.fr.eng.lay }
 
 var intT = types.Typ[types.Int]
@@ -219,7 +225,7 @@ func (e *Env) evalIdent(name string) (tval, error) {
 			return last, nil
 		}
 	}
-	if sf, ok := e.fr.eng.cs.Specs[name]; ok && len(sf.Params) == 0 {
+	if sf, ok := e.fr.eng.cs.lookupSpec(e.pkgPath(), name); ok && len(sf.Params) == 0 {
 		return e.applySpec(sf, nil)
 	}
 	// package-level objects
@@ -411,6 +417,15 @@ func (e *Env) evalSel(x ESel) (tval, error) {
 	if id, ok := x.X.(EIdent); ok && e.pkg != nil {
 		if _, isVar := e.vars[id.Name]; !isVar {
 			if _, isLocal := e.lookupLocal(id.Name); !isLocal {
+				if path, ok := e.fr.eng.aliases[e.pkg.Path()][id.Name]; ok {
+					for _, imp := range e.pkg.Imports() {
+						if imp.Path() == path {
+							if obj := imp.Scope().Lookup(x.Name); obj != nil {
+								return e.evalObject(obj)
+							}
+						}
+					}
+				}
 				for _, imp := range e.pkg.Imports() {
 					if imp.Name() == id.Name {
 						if obj := imp.Scope().Lookup(x.Name); obj != nil {
@@ -771,6 +786,16 @@ func (e *Env) evalCall(x ECall) (tval, error) {
 			op = ">="
 		}
 		return tval{T: intT, C: []string{sIte(app(op, a.C[0], b.C[0]), a.C[0], b.C[0])}}, nil
+	case "dynlen":
+		v, err := e.eval(x.Args[0])
+		if err != nil {
+			return tval{}, err
+		}
+		if len(v.C) != 2 {
+			return tval{}, fmt.Errorf("dynlen of a non-interface value")
+		}
+		e.vc().declFun("dynlen", []Sort{SInt}, SInt)
+		return tval{T: intT, C: []string{app("dynlen", v.C[1])}}, nil
 	case "typeIs":
 		// typeIs(x, "pkg.Type"): dynamic type test on an interface value
 		v, err := e.eval(x.Args[0])
@@ -787,7 +812,7 @@ func (e *Env) evalCall(x ECall) (tval, error) {
 		}
 		return tval{T: boolT, C: []string{sEq(v.C[0], sInt(int64(tag)))}}, nil
 	}
-	sf, ok := e.fr.eng.cs.Specs[x.Fun]
+	sf, ok := e.fr.eng.cs.lookupSpec(e.pkgPath(), x.Fun)
 	if !ok {
 		return tval{}, fmt.Errorf("unknown function %s in contract", x.Fun)
 	}
@@ -816,6 +841,13 @@ func (e *Env) applySpec(sf *SpecFunc, args []tval) (tval, error) {
 		ne.fn = nil
 		ne.loop = nil
 		ne.result = nil
+		if sf.Pkg != "" {
+			for _, p := range e.fr.eng.pkgs {
+				if p.PkgPath == sf.Pkg {
+					ne.pkg = p.Types
+				}
+			}
+		}
 		for i, p := range sf.Params {
 			ne.vars[p[0]] = args[i]
 		}
